@@ -83,8 +83,17 @@ def run(ids):
         sh(f"{PY} -m pdqverif check {p} --tier quick", cwd=VERIF)
     return summary
 
+def note(sid, key, text):
+    f = os.path.join(VERIF, "seeded", sid, "meta.json")
+    m = json.load(open(f))
+    m[key] = text
+    json.dump(m, open(f, "w"), indent=1)
+
+
 if __name__ == "__main__":
-    if sys.argv[1] == "confirm":
+    if sys.argv[1] == "note":
+        note(sys.argv[2], sys.argv[3], sys.argv[4])
+    elif sys.argv[1] == "confirm":
         sys.exit(0 if confirm(sys.argv[2], sys.argv[3], sys.argv[4]) else 1)
     else:
         run(sys.argv[2:])
